@@ -59,8 +59,13 @@ Definition sys_init (order : list str) (st : spec_store) : sys :=
 Definition set_phase (y : sys) (p : phase) : sys :=
   {| s_st := s_st y; s_todo := s_todo y; s_phase := p; s_cancel := s_cancel y; s_removed := s_removed y; s_visited := s_visited y; s_attempts := s_attempts y |}.
 
-(** One step of the scanner. *)
-Definition sc_step (cutoff : Z) (y : sys) : sys :=
+(** One step of the scanner. At the end of a callback DoScan runs
+       select { case <-ctx.Done(): return false ; case <-time.After(retentionSleep): }
+    With shutdown requested and the sleep timer already expired (RetentionSleep = 0 or tiny) BOTH
+    cases are ready and Go picks at random: [timer_first] = "the timer case is taken although
+    ctx is done" (possible only then). With an unexpired timer the ctx case is the only ready
+    one: [timer_first = false]. *)
+Definition sc_step (cutoff : Z) (timer_first : bool) (y : sys) : sys :=
   match s_phase y with
   | PDone _ => y
   | PIdle =>
@@ -70,7 +75,7 @@ Definition sc_step (cutoff : Z) (y : sys) : sys :=
           {| s_st := s_st y; s_todo := r; s_phase := PBox mb (snapshot (s_st y) mb); s_cancel := s_cancel y;
              s_removed := s_removed y; s_visited := S (s_visited y); s_attempts := s_attempts y |}
       end
-  | PBox mb [] => if s_cancel y then set_phase y (PDone true) else set_phase y PIdle
+  | PBox mb [] => if s_cancel y && negb timer_first then set_phase y (PDone true) else set_phase y PIdle
   | PBox mb (v :: rest) =>
       if expired cutoff (snd v) then
         {| s_st := do_remove (s_st y) mb (fst v); s_todo := s_todo y; s_phase := PBox mb rest; s_cancel := s_cancel y;
@@ -80,13 +85,13 @@ Definition sc_step (cutoff : Z) (y : sys) : sys :=
   end.
 
 Inductive ev :=
-| EStep                 (* the scanner moves *)
+| EStep (timer_first : bool)   (* the scanner moves; the flag resolves the select race at a callback end *)
 | EOp (o : op)          (* another client's operation (atomic) *)
 | ECancel.              (* shutdown requested *)
 
 Definition ev_step (cutoff : Z) (y : sys) (e : ev) : sys :=
   match e with
-  | EStep => sc_step cutoff y
+  | EStep tf => sc_step cutoff tf y
   | EOp o => {| s_st := fst (fst (exec_spec cfg (s_st y) o)); s_todo := s_todo y; s_phase := s_phase y;
                 s_cancel := s_cancel y; s_removed := s_removed y; s_visited := s_visited y; s_attempts := s_attempts y |}
   | ECancel => {| s_st := s_st y; s_todo := s_todo y; s_phase := s_phase y; s_cancel := true;
@@ -111,18 +116,25 @@ Definition at_pos (cutoff : Z) (y : sys) (p : ipos) : bool :=
 
 Definition in_box (y : sys) : bool := match s_phase y with PBox _ _ => true | _ => false end.
 
-Fixpoint replay (fuel : nat) (cutoff : Z) (cancel_at : nat) (pend : list (ipos * op)) (y : sys) : sys :=
+Definition at_cancelled_end (y : sys) : bool :=
+  match s_phase y with PBox _ [] => s_cancel y | _ => false end.
+
+(** [extra]: at how many callback ends after the cancellation the (already expired) sleep timer
+    wins the select against ctx.Done — 0 when RetentionSleep is long enough not to have expired. *)
+Fixpoint replay (fuel : nat) (cutoff : Z) (cancel_at : nat) (extra : nat) (pend : list (ipos * op)) (y : sys) : sys :=
   match fuel with
   | O => y
   | S f =>
       let y := if negb (s_cancel y) && negb (Nat.eqb cancel_at 0) && Nat.eqb (s_visited y) cancel_at && in_box y
                then ev_step cutoff y ECancel else y in
       let fire := match pend with (p, _) :: _ => at_pos cutoff y p | [] => false end in
+      let tf := at_cancelled_end y && negb (Nat.eqb extra 0) in
+      let extra' := if at_cancelled_end y then Nat.pred extra else extra in
       match pend with
       | (_, o) :: r =>
-          if fire then replay f cutoff cancel_at r (ev_step cutoff y (EOp o))
-          else match s_phase y with PDone _ => y | _ => replay f cutoff cancel_at pend (sc_step cutoff y) end
-      | [] => match s_phase y with PDone _ => y | _ => replay f cutoff cancel_at pend (sc_step cutoff y) end
+          if fire then replay f cutoff cancel_at extra r (ev_step cutoff y (EOp o))
+          else match s_phase y with PDone _ => y | _ => replay f cutoff cancel_at extra' pend (sc_step cutoff tf y) end
+      | [] => match s_phase y with PDone _ => y | _ => replay f cutoff cancel_at extra' pend (sc_step cutoff tf y) end
       end
   end.
 
